@@ -102,18 +102,23 @@ class Duration(timedelta):
             weeks,
         )
 
-        # Intuitive normalization
-        total = self.total_seconds() - (years * 365 + months * 30) * SECONDS_PER_DAY
-        self._total = total
+        # Intuitive normalization, in whole microseconds: a float number
+        # of seconds is not exact to the microsecond beyond a few centuries
+        total = (
+            (timedelta.days.__get__(self) - (years * 365 + months * 30))
+            * SECONDS_PER_DAY
+            + timedelta.seconds.__get__(self)
+        ) * US_PER_SECOND + timedelta.microseconds.__get__(self)
+        self._total = total / US_PER_SECOND
 
         m = 1
         if total < 0:
             m = -1
 
-        self._microseconds = round(total % m * 1e6)
-        self._seconds = abs(int(total)) % SECONDS_PER_DAY * m
+        self._microseconds = abs(total) % US_PER_SECOND * m
+        self._seconds = abs(total) // US_PER_SECOND % SECONDS_PER_DAY * m
 
-        _days = abs(int(total)) // SECONDS_PER_DAY * m
+        _days = abs(total) // US_PER_SECOND // SECONDS_PER_DAY * m
         self._days = _days
         self._remaining_days = abs(_days) % 7 * m
         self._weeks = abs(_days) // 7 * m
